@@ -135,7 +135,7 @@ class Storage(Machine):
         n_env = s.randint(4, 9)
         for e in range(n_env):
             v, c, origin = s.choice(classes_pool)
-            envs.append({"name": f"e{e}", "vendor": v, "class": c, "origin": origin,
+            envs.append({"name": self.odd_stem(s, f"e{e}"), "vendor": v, "class": c, "origin": origin,
                          "sign": s.choice([None, None, "es-256", "eddsa"]),
                          "cid_pos": s.choice(["early", "late", "any", "any"]),
                          "big": s.chance(0.08), "payloads": s.choice([0, 0, 1, 2]),
@@ -208,7 +208,7 @@ class Storage(Machine):
                         chosen = chosen[:pos] + [offender] + chosen[pos:]
                 if not chosen:
                     chosen = [s.choice(names)]
-                ops.append({"kind": "boot", "i": i, "envs": chosen, "dir": s.choice(["outA", "outA", "outB"]),
+                ops.append({"kind": "boot", "i": i, "envs": chosen, "dir": s.choice(["outA", "outA", "outB", "out.d", "out x", ".out"]),
                             "dirty": s.choice(self.DIRTY_VARIANTS),
                             "addr": s.choice([0x0E1ED000, 0x0, 0x10000 - 1024, 0x0FFF0000]), "kconfig": k, "soc": soc,
                             "entry": "lib" if soc == "nrf9280" else s.choice(["cli", "cli", "lib"])})
